@@ -139,9 +139,10 @@ def synthetic_reactions(tier="quick"):
         add("2b_2_1_1", two, {-1: (2, 3.5), 0: (1, 1.3), 1: (1, 0.9)})
         add("2b_0_ff", two, {-1: (0, 3.5), 0: (f, 1.3), 1: (f, 0.9)})
         add("2b_2_0_g2", two, {-1: (2, 3.5), 0: (0, 1.3), 1: (2, 0.0)})  # massless spin 2
-        add("3b_h_th_h0_1", *t3(1, h, t, h, 0, 1))
-        add("3b_0_2_t_h_2", *t3(2, 0, 2, t, h, 2))
-        add("3b_0_f_f0_f", *t3(0, 0, f, f, 0, f))
+        add("3b_t_0_00_t", *t3(0, t, 0, 0, 0, t))          # spin 3/2 initial state and spectator
+        add("3b_2_0_00_2", *t3(1, 2, 0, 0, 0, 2))          # massive spin 2
+        add("3b_f_0_00_f", *t3(2, f, 0, 0, 0, f))          # spin 5/2
+        add("3b_h_1_h0_1", *t3(1, h, 1, h, 0, 1))          # rotated particle inside the isobar
         add("3b_1_1_nu_nu", *t3(0, 1, 1, h, h, 0, masses=(3.0, 1.2, 0.0, 0.0, 0.5)))
         add("3b_2_0_00_g2", *t3(1, 2, 0, 0, 0, 2, masses=(3.0, 1.2, 0.3, 0.4, 0.0)))  # massless spin 2
     return out
